@@ -5,7 +5,7 @@ which buffers (cache, buffet, both) and with which style. Specifications the com
 import itertools
 
 
-def spec(part, isect, layout, types, where, style, cbits=True, isect_rank=None):
+def spec(part, isect, layout, types, where, style, cbits=True, isect_rank=None, types_by_comp=None):
     kr = ["K"] if part is None else ["K1", "K0"]
     inner = kr[-1]
     y = "einsum:\n  declaration:\n    A: [K, M]\n    B: [K, N]\n    Z: [M, N]\n  expressions:\n  - Z[m, n] = A[k, m] * B[k, n]\n"
@@ -41,7 +41,7 @@ def spec(part, isect, layout, types, where, style, cbits=True, isect_rank=None):
         if comp not in where:
             continue
         y += "  - component: %s\n    bindings:\n" % comp
-        for ty in types:
+        for ty in (types_by_comp or {}).get(comp, types):
             y += "    - tensor: A\n      rank: %s\n      type: %s\n      format: default\n" % (inner, ty)
             if comp == "Buf":
                 y += "      evict-on: %s\n" % ("root" if part is None else kr[0])
@@ -72,6 +72,15 @@ def specs(tier="quick"):
             continue
         name = "matmul K:%s isect=%s layout=%s on-chip %s in %s style=%s" % (part, isect, layout, "+".join(types), "+".join(where), style)
         out.append((name, spec(part, isect, layout, types, where, style)))
+    # different binding types in the cache and in the buffet below it (same tensor, rank, format)
+    for part in parts:
+        for layout in layouts:
+            for tl2, tbuf in ((("elem",), ("payload",)), (("elem",), ("coord",)), (("coord",), ("payload",)),
+                              (("payload",), ("coord", "payload")), (("coord", "payload"), ("elem",))):
+                for style in styles:
+                    out.append(("matmul K:%s layout=%s L2 holds %s, Buf holds %s, style=%s" % (part, layout, "+".join(tl2), "+".join(tbuf), style),
+                                spec(part, "two-finger", layout, ("coord",), ("L2", "Buf"), style,
+                                     types_by_comp={"L2": tl2, "Buf": tbuf})))
     # the intersector binding names the rank as declared (K) although the mapping splits it, or its outer level
     for part in parts[1:]:
         for isect in isects:
